@@ -85,7 +85,11 @@ def run_case(case, answer_within=3.0):
         yield n
         for i in range(1, n + 1):
             gate.hit("check", i)
-            yield 0xFF00, ct_ds(i)
+            ds = ct_ds(i)
+            if case.get("enc") and i == n:
+                # a value that cannot be encoded: the sub-operation fails before anything is sent
+                ds.PerimeterValue = b"\x00\x01"
+            yield 0xFF00, ds
         gate.hit("check", n + 1)
 
     dest_server = None
@@ -130,11 +134,11 @@ def run_case(case, answer_within=3.0):
         dest.add_supported_context(CT)
         dest_server = dest.start_server(("127.0.0.1", 0), block=False, evt_handlers=[(evt.EVT_C_STORE, dest_store)])
         dest_port[0] = dest_server.socket.getsockname()[1]
-    obs = {"svc": svc, "n": n, "pos": pos, "k": k, "tmo": bool(case.get("tmo", True)), "rp": False, "t_rp": -1.0, "peer_saw": "", "reached": False, "queued": False}
+    obs = {"svc": svc, "n": n, "pos": pos, "k": k, "tmo": bool(case.get("tmo", True)), "enc": bool(case.get("enc", False)), "rp": False, "t_rp": -1.0, "peer_saw": "", "reached": False, "queued": False}
     peer = None
     try:
         peer = RawPeer(port, [(VERIF_UID, ["1.2.840.10008.1.2"]), (FIND, ["1.2.840.10008.1.2"]), (GET, ["1.2.840.10008.1.2"]), (MOVE, ["1.2.840.10008.1.2"]),
-                              (CT, ["1.2.840.10008.1.2"])], roles=[(CT, True, True), (VERIF_UID, True, True)])
+                              (CT, ["1.2.840.10008.1.2.1" if case.get("enc") else "1.2.840.10008.1.2"])], roles=[(CT, True, True), (VERIF_UID, True, True)])
         if peer.associate() != "assoc_ac":
             obs["peer_saw"] = "no-accept"
             return obs
